@@ -109,8 +109,32 @@ def _reachable_copy(exe, base):
         return _COPIES[key]
 
 
-def run(cut, tree, argv, stdin=b"", tty=None, uid=0, env=None, timeout=8, strace=None, sanitize=False, keep=False, exe=None, root_owned=(), nofile=None):
-    """tree: Tree; argv: list of bytes (without argv[0]); tty: None (no controlling terminal) or list of answer byte strings.
+def _feed_chunks(wfd, chunks, timeout):
+    """writes the chunks to the pipe, each one only when the reader has taken the one before (FIONREAD on the pipe is 0) and has had
+    time to ask for more; closes the pipe at the end. Never blocks for longer than the run's time limit."""
+    import array
+    deadline = time.time() + timeout
+    try:
+        for i, c in enumerate(chunks):
+            if i:
+                while time.time() < deadline:
+                    n = array.array("i", [0])
+                    fcntl.ioctl(wfd, termios.FIONREAD, n)
+                    if n[0] == 0:
+                        break
+                    time.sleep(0.01)
+                time.sleep(0.15)
+            os.write(wfd, c)
+    except OSError:
+        pass
+    finally:
+        os.close(wfd)
+
+
+def run(cut, tree, argv, stdin=b"", tty=None, uid=0, env=None, timeout=8, strace=None, sanitize=False, keep=False, exe=None, root_owned=(), nofile=None, stdin_chunks=None):
+    """stdin_chunks: list of byte strings handed to the program's standard input one at a time through a pipe, each only after the
+    previous one has been read (so the program sees short reads, as from a slow producer); overrides stdin.
+    tree: Tree; argv: list of bytes (without argv[0]); tty: None (no controlling terminal) or list of answer byte strings.
     strace: None | {'trace': True} | {'inject': 'write:error=ENOSPC:when=3'}"""
     base = BOXROOT
     if uid != 0 and not _others_can_reach(BOXROOT):
@@ -162,9 +186,17 @@ def run(cut, tree, argv, stdin=b"", tty=None, uid=0, env=None, timeout=8, strace
     t0 = time.time()
     if tty is None:
         for attempt in range(4):
-            p = subprocess.Popen(cmd, cwd=root, env=e, stdin=subprocess.PIPE, stdout=subprocess.PIPE, stderr=subprocess.PIPE, start_new_session=True)
+            feeder = None
+            if stdin_chunks:
+                rfd, wfd = os.pipe()
+                p = subprocess.Popen(cmd, cwd=root, env=e, stdin=rfd, stdout=subprocess.PIPE, stderr=subprocess.PIPE, start_new_session=True)
+                os.close(rfd)
+                feeder = threading.Thread(target=_feed_chunks, args=(wfd, list(stdin_chunks), timeout), daemon=True)
+                feeder.start()
+            else:
+                p = subprocess.Popen(cmd, cwd=root, env=e, stdin=subprocess.PIPE, stdout=subprocess.PIPE, stderr=subprocess.PIPE, start_new_session=True)
             try:
-                out, err = p.communicate(stdin, timeout=timeout)
+                out, err = p.communicate(None if stdin_chunks else stdin, timeout=timeout)
                 r.timeout = False
             except subprocess.TimeoutExpired:
                 os.killpg(p.pid, signal.SIGKILL)
